@@ -114,7 +114,7 @@ def check_case(ctx, c):
         if name == "CountFeatureCompression" and p.get("algorithm") == "arpack":
             return ctx.skip("arpack keeps k < rank components")
     tol = z.tol
-    if z.svd and p.get("memory_size") in ("64", "1k", "4k"):
+    if z.svd and p.get("memory_size") in ("64", "200", "1k", "4k"):
         tol = 2e-6  # multi-block fits spill their blocks as float32 before the SVD
     exact = False
     if name.startswith("Cooc"):
